@@ -143,11 +143,16 @@ func solveAll(cx *Ctx, obls []*Obligation, opt solveOpts) {
 			}
 			file := filepath.Join(opt.workDir, fmt.Sprintf("%s-%d.smt2", mangle(o.Name), i))
 			os.WriteFile(file, []byte(script), 0o644)
-			to := opt.timeout
-			if o.ExpectSat && to > 4*time.Second {
-				to = 4 * time.Second
+			if o.ExpectSat {
+				// vacuity canary: look for a contradiction with the same instantiation
+				// machinery the proofs use (no model-based search)
+				r := runSolver(context.Background(), solverSpec{"z3-new", func(f string, t time.Duration, seed int) []string {
+					return []string{"z3-new", "smt.mbqi=false", fmt.Sprintf("-T:%d", int(t.Seconds())+1), f}
+				}}, file, 3*time.Second, opt.seed)
+				o.Status, o.Solver, o.TimeS, o.Output, o.Script = r.status, r.solver, r.dur.Seconds(), r.out, file
+				return
 			}
-			r, _ := solve(file, to, opt.seed, opt.cross && !o.ExpectSat)
+			r, _ := solve(file, opt.timeout, opt.seed, opt.cross)
 			o.Status, o.Solver, o.TimeS, o.Output, o.Script = r.status, r.solver, r.dur.Seconds(), r.out, file
 			if len(o.Output) > 2000 {
 				o.Output = o.Output[:2000]
